@@ -94,6 +94,14 @@ static void gen_mul(const GenCtx &ctx, Case &c, int viewpct) {
       n = std::min(n, 400);
     }
   }
+  if (!square && r != "djb" && r.find("naive") == std::string::npos && r != "_mzd_mul_va" && ctx.scale >= 400 && g::coin(1, 50)) {
+    // one extreme dimension (result kept small): automatic k and block rules see very wide / very thin operands
+    int few1 = g::rng(1, 70), few2 = g::rng(1, 70), huge = g::rng(20000, 45000);
+    int which = g::rng(0, 2);
+    m = which == 0 ? huge : few1;
+    l = which == 1 ? huge : (which == 0 ? few2 : few1);
+    n = which == 2 ? huge : few2;
+  }
   if (square) l = n = m;
   c.set("m", m).set("l", l).set("n", n);
   if (rt->param == 1) c.set("k", k);
